@@ -9,7 +9,7 @@ V = '/verif'
 REPO = '/repo'
 
 def sh(cmd, **kw):
-    return subprocess.run(cmd, shell=isinstance(cmd, str), stdout=subprocess.PIPE, stderr=subprocess.STDOUT, text=True, **kw)
+    return subprocess.run(cmd, shell=isinstance(cmd, str), stdout=subprocess.PIPE, stderr=subprocess.STDOUT, text=True, errors='replace', **kw)
 
 def verify(src, sid, prop):
     wt = '/tmp/sv_%s' % sid
